@@ -94,7 +94,7 @@ def make_X(rng, n, p, kind="gauss", rho=0.5, density=1.0):
     return np.asfortranarray(X)
 
 
-def make_target(rng, X, kind, w_true=None, noise=0.5, n_tasks=3, ties=True):
+def make_target(rng, X, kind, w_true=None, noise=0.5, n_tasks=3, ties=True, offset_scale=None):
     n, p = X.shape
     if w_true is None:
         w_true = np.zeros(p)
@@ -105,7 +105,8 @@ def make_target(rng, X, kind, w_true=None, noise=0.5, n_tasks=3, ties=True):
     if kind == "real":
         # offsets on three scales: a tiny optimal intercept (errors of its size in the model fit look like progress), an
         # ordinary one, and one that dominates the signal
-        return z + noise * sc * rng.standard_normal(n) + rng.uniform(-1, 1) * float(rng.choice([0.005, 0.05, 1.0, 1.0, 10.0]))
+        return z + noise * sc * rng.standard_normal(n) + rng.uniform(-1, 1) * (
+            float(rng.choice([0.005, 0.05, 1.0, 1.0, 10.0])) if offset_scale is None else float(offset_scale))
     if kind == "pm1":
         y = np.sign(z / sc + noise * rng.standard_normal(n))
         y[y == 0] = 1.0
@@ -135,7 +136,9 @@ def make_target(rng, X, kind, w_true=None, noise=0.5, n_tasks=3, ties=True):
         W[rng.choice(p, k, replace=False)] = rng.standard_normal((k, n_tasks))
         Z = X @ W
         return np.asfortranarray(Z + noise * max(norm(Z) / np.sqrt(Z.size), 1e-3) * rng.standard_normal(Z.shape)
-                                 + rng.uniform(-1, 1, size=n_tasks) * float(rng.choice([0.005, 0.05, 1.0, 1.0, 10.0])))
+                                 + rng.uniform(-1, 1, size=n_tasks) * (
+                                     float(rng.choice([0.005, 0.05, 1.0, 1.0, 10.0])) if offset_scale is None
+                                     else float(offset_scale)))
     raise KeyError(kind)
 
 
